@@ -62,6 +62,16 @@ def _case(draw, tier):
         if draw(st.booleans()):
             p = ["not", "not_", p]
         c["cond"] = [draw(st.sampled_from(["and", "and", "or"])), "nary", [c["cond"], p] if draw(st.booleans()) else [p, c["cond"]]]
+    if chance(draw, 1, 3):
+        # a variable without a domain (registry) with a field constraint, built in query or in rule mode
+        vd = c["vars"][draw(st.integers(0, len(c["vars"]) - 1))]
+        vd.update(decl="registry", in_rule=draw(st.booleans()),
+                  kw=[[draw(st.sampled_from(["a", "b"])), draw(st.sampled_from([0, 1, 2]))]])
+    if chance(draw, 1, 4):
+        # a user predicate that opens a symbolic block of its own while it runs
+        v = draw(st.integers(0, len(c["vars"]) - 1))
+        c["cond"] = ["and", "nary", [["fpred", "p_runs_subquery", [["var", v], ["const", draw(st.sampled_from([0, 1, 2]))]]],
+                                     c["cond"], ["cpred", "IsBig", [["var", v]]]]]
     c["quant"] = draw(st.sampled_from(["an", "the", "the", "infer", "infer"]))
     c["steer"] = draw(st.sampled_from(["keep", "one", "one", "zero"])) if c["quant"] == "the" else "keep"
     c["pick"] = draw(st.integers(0, 20))
